@@ -169,6 +169,7 @@ inductive IStmt where
   | declCmp (o : Op2) (x y : Nat)        -- `Bit t = (x == y);` (t is an ordinary signal)
   | reg (e : Expr)                       -- `auto t = reg(e);`        clocked: the register's ENABLE input is the observed effect
   | memW (addr d : Expr)                 -- `mem[addr] = d;`          clocked: the write port's wrEnable input is the observed effect
+  | resetAssign (x : Nat) (e : Expr)     -- `x.resetNode(); x = e;`   the vector is re-created (all alias caches dropped) and re-initialised
   deriving Repr
 
 /-- statement list in continuation form (last argument = the statements that follow) -/
